@@ -187,14 +187,30 @@ def run(ctx):
             ctx.ok("R18.1", key, sample={"proxy": prop, "element_accessor": ename, "child": child, "tag": tag, "in_schema": True})
     ctx.count("properties", n)
     # elements are created through get_or_add only (xsd:all: each at most once)
+    from sa import paths as P_
+    from sa.idioms import returned_exprs
+    from sa.inline import expand as _expand
+    from sa.strtpl import holes, shape, template_of
+
     goa = el.methods.get("_get_or_add")
+    if goa is None:
+        raise AnalysisError("anchor vanished: CT_CoreProperties._get_or_add")
     fmt = None
-    for x in ast.walk(goa.node) if goa else []:
-        if isinstance(x, ast.BinOp) and isinstance(x.op, ast.Mod) and isinstance(x.left, ast.Constant):
-            fmt = x.left.value
+    gx, grets = returned_exprs(prog, goa)
+    gparam = goa.node.args.args[1].arg
+    for x in ast.walk(gx):
+        # the method name handed to getattr(self, <name>) as a template over the property name
+        if isinstance(x, ast.Call) and dotted(x.func) == "getattr" and len(x.args) == 2 and dotted(x.args[0]) == "self":
+            t = template_of(ast.parse(P_.full(x.args[1], P_.value_aliases(gx)), mode="eval").body)
+            if t is not None and len(holes(t)) == 1 and dotted(holes(t)[0].expr) == gparam:
+                fmt = shape(t)
+    if fmt is None:
+        ctx.error("CT_CoreProperties._get_or_add", "the looked-up method name is not recognised")
     adders = [x.func.attr for f in el.methods.values() for x in ast.walk(f.node) if isinstance(x, ast.Call) and isinstance(x.func, ast.Attribute)
               and x.func.attr.startswith(("_add_", "_insert_")) and dotted(x.func.value) == "self"]
-    if fmt == "get_or_add_%s" and not adders:
+    if fmt is None:
+        pass
+    elif fmt == "get_or_add_{}" and not adders:
         ctx.ok("R18.1", "CT_CoreProperties._get_or_add", sample={"creates_through": "get_or_add_<child> (never a second element)"})
     else:
         ctx.violation("R18.1", "CT_CoreProperties._get_or_add", "children are not created through get_or_add_<child> only (%r, direct adders %s)" % (fmt, adders),
@@ -205,45 +221,121 @@ def run(ctx):
     sst = el.methods.get("_set_element_text")
     if sst is None:
         raise AnalysisError("anchor vanished: _set_element_text")
-    body = _body(sst)
-    vname = sst.node.args.args[2].arg
+    vparam = sst.node.args.args[2].arg
+    sx = _expand(prog, sst, local_only=True, skip_names=("_get_or_add",))
+    sal, sval = P_.aliases(sx), P_.value_aliases(sx)
 
-    def len_test(t):
-        return isinstance(t, ast.Compare) and isinstance(t.left, ast.Call) and dotted(t.left.func) == "len" and any(
-            isinstance(x, ast.Name) and x.id == vname for x in ast.walk(t.left.args[0]))
+    def mutating(st):
+        for n_ in ast.walk(st):
+            if isinstance(n_, ast.Call) and isinstance(n_.func, ast.Attribute) and (
+                    n_.func.attr.startswith(("get_or_add", "_get_or_add", "_add_", "_insert_")) or n_.func.attr in ("set", "append")):
+                return True
+            if isinstance(n_, ast.Assign) and any(isinstance(t_, ast.Attribute) and t_.attr == "text" for t_ in n_.targets):
+                return True
+        return False
 
-    gi, exc = _guard(body, len_test)
-    mi = _first_mutation_index(body)
-    bound = None
-    if gi is not None:
-        t = body[gi].test
-        c = prog.const(t.comparators[0], sst.module)
-        if isinstance(t.ops[0], ast.Gt):
-            bound = c
-        elif isinstance(t.ops[0], ast.GtE) and isinstance(c, int):
-            bound = c - 1
-    coerced = any(isinstance(st, ast.Assign) and dotted(st.targets[0]) == vname and isinstance(st.value, ast.Call) and dotted(st.value.func) == "str"
-                  for st in body[:gi if gi is not None else 0])
-    stores = any(isinstance(x, ast.Assign) and any(isinstance(t, ast.Attribute) and t.attr == "text" for t in x.targets) and dotted(x.value) == vname
-                 for x in ast.walk(sst.node))
-    measured = ast.unparse(body[gi].test.left.args[0]) if gi is not None else None
-    if gi is not None and measured != vname:
-        ctx.violation("R18.2", "_set_element_text", "the 255 limit is applied to len(%s), not to the number of characters of the string: strings of up "
-                      "to 255 characters can be refused (or longer ones accepted)" % measured, file=sst.file, line=sst.line)
-    elif gi is not None and mi is not None and gi < mi and exc == "ValueError" and bound == 255 and stores:
+    def is_text_of_value(name):
+        """name is the parameter or str(parameter) (re-bound or under another name)"""
+        if name == vparam:
+            return True, any(isinstance(n_, ast.Assign) and dotted(n_.targets[0]) == vparam and isinstance(n_.value, ast.Call) and dotted(n_.value.func) == "str"
+                             for n_ in ast.walk(sx))
+        v_ = sval.get(name)
+        return (isinstance(v_, ast.Call) and dotted(v_.func) == "str" and len(v_.args) == 1 and dotted(v_.args[0]) == vparam), True
+
+    probs, stored_paths, refusals, coerced = [], 0, 0, False
+    unrecognised = None
+    for pth in P_.enum_paths(sx.body):
+        evs = pth.events
+        store_i = next((i for i, e in enumerate(evs) if e[0] == "stmt" and isinstance(e[1], ast.Assign) and any(
+            isinstance(t_, ast.Attribute) and t_.attr == "text" for t_ in e[1].targets)), None)
+        fs = P_.facts(pth, None, sal)
+        lens = [a_ for a_ in fs if a_[0] == "cmp" and a_[2].startswith("len(") and a_[2].endswith(")")]
+        if pth.end == "raise":
+            exc = dotted(pth.end_node.exc.func) if isinstance(pth.end_node.exc, ast.Call) else dotted(pth.end_node.exc)
+            if lens:
+                refusals += 1
+                if exc != "ValueError":
+                    probs.append("an over-long string is refused with %s, not ValueError" % exc)
+                if any(e[0] == "stmt" and mutating(e[1]) for e in evs):
+                    probs.append("the element is created or written before the over-long string is refused")
+            continue
+        if store_i is None:
+            continue
+        stored_paths += 1
+        st = evs[store_i][1]
+        w = dotted(st.value)
+        okw, co = is_text_of_value(w) if w else (False, False)
+        coerced = coerced or co
+        if not okw:
+            probs.append("the stored text is `%s`, not the (string form of the) assigned value" % ast.unparse(st.value))
+            continue
+        if not lens:
+            probs.append("a string is stored on a path that has not tested its length")
+            continue
+        a_ = lens[0]
+        measured = a_[2][4:-1]
+        k = prog.const(ast.parse(a_[3], mode="eval").body, sst.module, None, el)
+        op, outcome = a_[1], a_[4]
+        bound = None
+        if isinstance(k, int):
+            bound = {("Gt", False): k, ("GtE", False): k - 1, ("LtE", True): k, ("Lt", True): k - 1}.get((op, outcome))
+        if measured != w:
+            probs.append("the 255 limit is applied to len(%s), not to the number of characters of the string: strings of up to 255 characters "
+                         "can be refused (or longer ones accepted)" % measured)
+        elif bound is None:
+            unrecognised = "length test `%s %s %s` not understood" % (a_[2], op, a_[3])
+        elif bound != 255:
+            probs.append("strings of up to %d characters are accepted, the limit is 255" % bound)
+    if unrecognised or not stored_paths:
+        ctx.error("_set_element_text", unrecognised or "no path stores the text")
+    elif not refusals and not probs:
+        ctx.violation("R18.2", "_set_element_text", "string limit is not `len > 255 -> ValueError` before any mutation (no refusing path)",
+                      file=sst.file, line=sst.line)
+    elif probs:
+        ctx.violation("R18.2", "_set_element_text", "string limit is not `len > 255 -> ValueError` before any mutation: %s" % "; ".join(sorted(set(probs))),
+                      file=sst.file, line=sst.line)
+    else:
         ctx.ok("R18.2", "_set_element_text", sample={"accepts": "len <= 255", "refuses": "ValueError before the element is created", "str()": coerced})
-    else:
-        ctx.violation("R18.2", "_set_element_text", "string limit is not `len > 255 -> ValueError` before any mutation (guard@%s mutation@%s exc=%s "
-                      "largest accepted length=%s stores value=%s)" % (gi, mi, exc, bound, stores), file=sst.file, line=sst.line)
     tof = el.methods.get("_text_of_element")
-    rets = [x.value for x in walk_own(tof.node) if isinstance(x, ast.Return)] if tof else []
-    consts = [prog.const(r, tof.module) for r in rets if isinstance(r, ast.Constant)]
-    final = rets[-1] if rets else None
-    if tof is not None and set(consts) == {""} and isinstance(final, ast.Attribute) and final.attr == "text":
-        ctx.ok("R18.2", "_text_of_element", sample={"absent_or_empty": "''", "otherwise": "element.text unchanged"})
+    if tof is None:
+        raise AnalysisError("anchor vanished: _text_of_element")
+    tx = _expand(prog, tof, local_only=True)
+    tval = P_.value_aliases(tx)
+    elem_names = {k_ for k_, v_ in tval.items() if isinstance(v_, ast.Call) and dotted(v_.func) == "getattr"}
+    rows = [r for r in P_.outcomes(tx.body, P_.aliases(tx)) if r.end == "return"]
+    probs = []
+    n_text = 0
+    for r in rows:
+        # the value on this path, with names assigned on the path resolved
+        env_ = {}
+        for st in r.path.stmts():
+            if isinstance(st, ast.Assign) and len(st.targets) == 1 and isinstance(st.targets[0], ast.Name):
+                env_[st.targets[0].id] = st.value
+        v = r.path.end_node.value
+        for _ in range(4):
+            if isinstance(v, ast.Name) and v.id in env_ and v.id not in elem_names:
+                v = env_[v.id]
+        vs = ast.unparse(v)
+        absent = P_.implied(r.facts, lambda a_: a_[0] == "none" and a_[2] is True)
+        if isinstance(v, ast.BoolOp) and isinstance(v.op, ast.Or) and len(v.values) == 2 and prog.const(v.values[1], tof.module) == "":
+            vs = ast.unparse(v.values[0])   # `element.text or ""`
+            absent = False
+        if absent:
+            if prog.const(v, tof.module) != "":
+                probs.append("an absent element / empty text reads as %s, not ''" % vs)
+        elif vs.endswith(".text") and vs.split(".")[0] in elem_names:
+            n_text += 1
+        elif prog.const(v, tof.module) == "":
+            pass
+        else:
+            probs.append("a present element reads as %s, not its text" % vs)
+    if not rows or (not n_text and not probs):
+        ctx.error("_text_of_element", "reader not recognised")
+    elif probs:
+        ctx.violation("R18.2", "_text_of_element", "reader does not return '' for an absent/empty element and the stored text otherwise: %s"
+                      % "; ".join(sorted(set(probs))), file=el.file, line=tof.line)
     else:
-        ctx.violation("R18.2", "_text_of_element", "reader does not return '' for an absent/empty element and the stored text otherwise",
-                      file=el.file, line=tof.line if tof else el.line)
+        ctx.ok("R18.2", "_text_of_element", sample={"absent_or_empty": "''", "otherwise": "element.text unchanged"})
 
     # -- R18.3 -------------------------------------------------------------------------------------------
     ctx.rule("R18.3", "dates: refusal before mutation; written pattern readable by the reader; xsi:type; offsets to UTC")
